@@ -680,6 +680,7 @@ package engine
 //@   trusted
 //@   modifies nothing
 //@   ensures result == resolve(e, t)
+//@   ensures t != nil ==> result != nil
 
 //@ func Catch
 //@   property C04
@@ -711,7 +712,8 @@ package engine
 //@ func Call
 //@   property C03
 //@   nosafety
-//@   at-call (*userDefined).call requires[fresh-procedure] fresh(a0) && a1 == vm && a3 == k && a4 == env
+//@   bind cs, cerr = compile#1
+//@   at-call clauses.call requires[one-off-procedure-compiled-from-the-goal] cerr == nil && a0 == cs && a1 == vm && a3 == k && a4 == env
 
 //@ func CallNth$1
 //@   property C03
@@ -1299,6 +1301,7 @@ package engine
 //@   trusted
 //@   pure
 //@   deterministic
+//@   ensures result != nil
 
 //@ spec fun rank(t Term) int = ite(t is Variable, 0, ite(t is Float, 1, ite(t is Integer, 2, ite(t is Atom, 3, ite(t is Compound, 5, 4)))))
 
@@ -1343,7 +1346,7 @@ package engine
 
 //@ func CompareCompound
 //@   property C08
-//@   requires c != nil
+//@   requires c != nil && t != nil
 //@   modifies nothing
 //@   let r = resolve(env, t)
 //@   at-call (*Env).Resolve requires[compares-the-resolved-term] a0 == env && a1 == t
